@@ -575,12 +575,16 @@ class Tr:
 
     def is_null(self, x):
         while x.get("kind") in ("ImplicitCastExpr", "ParenExpr", "CStyleCastExpr") and x.get("inner"):
+            if x.get("castKind") == "NullToPointer":      # the literal `0` used as a null pointer
+                return True
             x = x["inner"][-1]
         return x.get("kind") in ("CXXNullPtrLiteralExpr", "GNUNullExpr")
 
     def is_nullptr(self, n):
         x = n
         while x.get("kind") in ("ImplicitCastExpr", "ParenExpr", "CStyleCastExpr") and x.get("inner"):
+            if x.get("castKind") == "NullToPointer":      # `0 != p`
+                return True
             x = x["inner"][-1]
         return x.get("kind") in ("CXXNullPtrLiteralExpr", "GNUNullExpr")
 
